@@ -565,7 +565,7 @@ func (x *pend) report(r *core.Run, table *envTable, specTrace string) {
 	}
 	r.Violation(map[string]interface{}{"kind": "prog", "prog": x.p.id, "source": x.p.fn, "variant": x.v.name},
 		fmt.Sprintf("minified program behaves differently (options %s, environment row %v):\n%s\n  input : %s\n  output: %s", x.v.name, row, x.p.fn, x.m.Input, x.m.Output),
-		map[string]interface{}{"input": "globalThis.main = " + x.p.fn + ";", "reference_prelude": referencePrelude(x.p.Kind), "output_program": outSeg, "options": x.v.options(), "env_row": row,
+		map[string]interface{}{"input": "globalThis.main = " + x.p.fn + ";", "reference_prelude": referencePrelude(x.p.Kind), "output_program": outSeg, "options": x.v.options(), "env_row": row, "q": table.Q,
 			"v8_input": x.m.Input, "v8_output": x.m.Output, "spec": specTrace, "labels": x.p.Labels, "family": x.p.Kind, "prog_ast": x.p.RawProg})
 }
 
@@ -642,8 +642,15 @@ func confirmMismatches(r *core.Run, table *envTable, pends []pend) {
 	}
 	answers := map[int]*ans{}
 	var mu sync.Mutex
-	res := tlcrun.MustHold(r, tlcrun.Options{Module: "JsSemGen", Config: "JsSemGen.eval.cfg", Workers: 4, TimeoutSec: 600, XssMB: 256, HeapGB: 2,
-		Files: map[string]string{"c03_eval.ndjson": nd.String()},
+	// the requests name rows of THIS run's environment table: the evaluation must use the same Q
+	evalCfg, err := os.ReadFile(filepath.Join(r.Verif, "spec", "cfg", "JsSemGen.eval.cfg"))
+	if err != nil {
+		r.Infra("cannot read JsSemGen.eval.cfg: %v", err)
+		return
+	}
+	cfgQ := regexp.MustCompile(`(?m)^(\s*Q\s*=\s*).*$`).ReplaceAllString(string(evalCfg), "${1}"+fmt.Sprint(table.Q))
+	res := tlcrun.MustHold(r, tlcrun.Options{Module: "JsSemGen", Config: "JsSemGen.eval.cfg", Workers: 4, TimeoutSec: r.Pick(600, 1800), XssMB: 256, HeapGB: 2,
+		Files: map[string]string{"c03_eval.ndjson": nd.String(), "JsSemGen.eval.cfg": cfgQ},
 		OnCase: func(raw []byte) {
 			var a ans
 			if json.Unmarshal(raw, &a) == nil && a.Spec == "JsSemReq" {
